@@ -33,13 +33,18 @@ structure Keeps (s s' : St) : Prop where
   root : s'.root = s.root
   ruleRoot : s'.ruleRoot = s.ruleRoot
   out : ∃ c, s'.out = c ++ s.out
+  depth : s.maxDepth ≤ s'.maxDepth ∧ s'.maxDepth ≤ max s.maxDepth (callDepthLimit + 1)
 
-theorem Keeps.refl (s : St) : Keeps s s := ⟨FramesKeep.refl _, rfl, rfl, ⟨[], rfl⟩⟩
+theorem depth_refl (s : St) : s.maxDepth ≤ s.maxDepth ∧ s.maxDepth ≤ max s.maxDepth (callDepthLimit + 1) :=
+  ⟨Nat.le_refl _, Nat.le_max_left _ _⟩
+
+theorem Keeps.refl (s : St) : Keeps s s := ⟨FramesKeep.refl _, rfl, rfl, ⟨[], rfl⟩, depth_refl s⟩
 
 theorem Keeps.trans {a b c : St} (h1 : Keeps a b) (h2 : Keeps b c) : Keeps a c := by
-  obtain ⟨f1, r1, rr1, ⟨c1, o1⟩⟩ := h1
-  obtain ⟨f2, r2, rr2, ⟨c2, o2⟩⟩ := h2
-  exact ⟨f1.trans f2, r2.trans r1, rr2.trans rr1, ⟨c2 ++ c1, by rw [o2, o1, List.append_assoc]⟩⟩
+  obtain ⟨f1, r1, rr1, ⟨c1, o1⟩, d1⟩ := h1
+  obtain ⟨f2, r2, rr2, ⟨c2, o2⟩, d2⟩ := h2
+  exact ⟨f1.trans f2, r2.trans r1, rr2.trans rr1, ⟨c2 ++ c1, by rw [o2, o1, List.append_assoc]⟩,
+    ⟨by omega, by omega⟩⟩
 
 /-- the invariant on a result, relative to the state the evaluation started from -/
 def Q {α : Type} (s : St) : Res α → Prop
@@ -100,7 +105,7 @@ theorem throwUnmodelled {α : Type} (m : String) : Safe (Jqawk.throwUnmodelled m
 
 theorem throwRt {α : Type} (p : Nat) (m : String) : Safe (Jqawk.throwRt p m : EM α) := by
   intro s
-  exact ⟨⟨FramesKeep.refl _, rfl, rfl, ⟨[], rfl⟩⟩, rfl, rfl⟩
+  exact ⟨⟨FramesKeep.refl _, rfl, rfl, ⟨[], rfl⟩, depth_refl s⟩, rfl, rfl⟩
 
 theorem liftExcept {α : Type} (p : Nat) (e : Except String α) : Safe (Jqawk.liftExcept p e) := by
   cases e with
@@ -110,19 +115,19 @@ theorem liftExcept {α : Type} (p : Nat) (e : Except String α) : Safe (Jqawk.li
 /-- any update of the heap alone -/
 theorem heapOnly {α : Type} (f : St → α × Heap) :
     Safe (fun s => let r := f s; Res.ok r.1 { s with heap := r.2 } : EM α) :=
-  fun s => ⟨⟨FramesKeep.refl _, rfl, rfl, ⟨[], rfl⟩⟩, rfl⟩
+  fun s => ⟨⟨FramesKeep.refl _, rfl, rfl, ⟨[], rfl⟩, depth_refl s⟩, rfl⟩
 
 theorem newCell (v : Val) : Safe (Jqawk.newCell v) :=
-  fun s => ⟨⟨FramesKeep.refl _, rfl, rfl, ⟨[], rfl⟩⟩, rfl⟩
+  fun s => ⟨⟨FramesKeep.refl _, rfl, rfl, ⟨[], rfl⟩, depth_refl s⟩, rfl⟩
 theorem writeCell (c : CellId) (v : Val) : Safe (Jqawk.writeCell c v) :=
-  fun s => ⟨⟨FramesKeep.refl _, rfl, rfl, ⟨[], rfl⟩⟩, rfl⟩
+  fun s => ⟨⟨FramesKeep.refl _, rfl, rfl, ⟨[], rfl⟩, depth_refl s⟩, rfl⟩
 theorem setHeap (h : Heap) : Safe (Jqawk.setHeap h) :=
-  fun s => ⟨⟨FramesKeep.refl _, rfl, rfl, ⟨[], rfl⟩⟩, rfl⟩
+  fun s => ⟨⟨FramesKeep.refl _, rfl, rfl, ⟨[], rfl⟩, depth_refl s⟩, rfl⟩
 theorem emit (b : Bytes) : Safe (Jqawk.emit b) :=
-  fun s => ⟨⟨FramesKeep.refl _, rfl, rfl, ⟨[b], rfl⟩⟩, rfl⟩
+  fun s => ⟨⟨FramesKeep.refl _, rfl, rfl, ⟨[b], rfl⟩, depth_refl s⟩, rfl⟩
 theorem setReturnVal (c : Option CellId) :
     Safe (Jqawk.modifySt fun s => { s with returnVal := c }) :=
-  fun s => ⟨⟨FramesKeep.refl _, rfl, rfl, ⟨[], rfl⟩⟩, rfl⟩
+  fun s => ⟨⟨FramesKeep.refl _, rfl, rfl, ⟨[], rfl⟩, depth_refl s⟩, rfl⟩
 
 theorem setLocal (name : Bytes) (c : CellId) : Safe (Jqawk.setLocal name c) := by
   intro s
@@ -130,7 +135,7 @@ theorem setLocal (name : Bytes) (c : CellId) : Safe (Jqawk.setLocal name c) := b
   cases hf : s.frames with
   | nil => exact Keeps.refl s
   | cons f fs =>
-    refine ⟨⟨?_, rfl, rfl, ⟨[], rfl⟩⟩, rfl⟩
+    refine ⟨⟨?_, rfl, rfl, ⟨[], rfl⟩, depth_refl s⟩, rfl⟩
     simp [FramesKeep, hf]
 
 theorem getVariable (name : Bytes) : Safe (Jqawk.getVariable name) := by
@@ -305,27 +310,30 @@ theorem Safe.framed {α : Type} (name : Bytes) (pos : Nat) (body : EM α) (hb : 
   · simp only [Bind.bind, EM.bind, Jqawk.getSt, Jqawk.pushFrame, hd, ↓reduceIte]
     exact Safe.throwRt pos _ s
   · simp only [Bind.bind, EM.bind, Jqawk.getSt, Jqawk.pushFrame, hd, ↓reduceIte, Jqawk.withFrames]
-    have h := hb { s with frames := ⟨name, []⟩ :: s.frames }
-    cases hr : body { s with frames := ⟨name, []⟩ :: s.frames } with
+    have hd' : s.frames.length + 1 ≤ callDepthLimit + 1 := by omega
+    have h := hb { s with frames := ⟨name, []⟩ :: s.frames,
+                          maxDepth := max s.maxDepth (s.frames.length + 1) }
+    have fix : ∀ s1 : St,
+        Keeps { s with frames := ⟨name, []⟩ :: s.frames,
+                       maxDepth := max s.maxDepth (s.frames.length + 1) } s1 →
+        Keeps s { s1 with frames := s.frames } := by
+      intro s1 hk
+      obtain ⟨_, hroot, hrr, hout, hdep⟩ := hk
+      refine ⟨FramesKeep.refl _, hroot, hrr, hout, ?_⟩
+      simp only at hdep ⊢
+      omega
+    cases hr : body { s with frames := ⟨name, []⟩ :: s.frames,
+                             maxDepth := max s.maxDepth (s.frames.length + 1) } with
     | ok a s1 =>
       rw [hr] at h
-      obtain ⟨⟨_, hroot, hrr, hout⟩, hf⟩ := h
-      exact ⟨⟨FramesKeep.refl _, hroot, hrr, hout⟩, hf⟩
+      exact ⟨fix s1 h.1, h.2⟩
     | err e s1 =>
       rw [hr] at h
       cases e with
-      | runtime p m =>
-        obtain ⟨⟨_, hroot, hrr, hout⟩, hf, hfo⟩ := h
-        exact ⟨⟨FramesKeep.refl _, hroot, hrr, hout⟩, hf, hfo⟩
-      | sig g =>
-        obtain ⟨⟨_, hroot, hrr, hout⟩, hf⟩ := h
-        exact ⟨⟨FramesKeep.refl _, hroot, hrr, hout⟩, hf⟩
-      | panic m =>
-        obtain ⟨_, hroot, hrr, hout⟩ := h
-        exact ⟨FramesKeep.refl _, hroot, hrr, hout⟩
-      | unmodelled m =>
-        obtain ⟨_, hroot, hrr, hout⟩ := h
-        exact ⟨FramesKeep.refl _, hroot, hrr, hout⟩
+      | runtime p m => exact ⟨fix s1 h.1, h.2.1, h.2.2⟩
+      | sig g => exact ⟨fix s1 h.1, h.2⟩
+      | panic m => exact fix s1 h
+      | unmodelled m => exact fix s1 h
     | oof => trivial
 
 /-! ### the mutual induction over the evaluator -/
